@@ -382,6 +382,25 @@ Definition render_marker (S : styles) (cn : cname) (v : Z) : outcome :=
   end.
 
 (* -------------------------------------------------------------------------- correspondence judge *)
+(* texts are written in the case files as UTF-8 string literals (cheap to parse) and decoded here *)
+From Coq Require Import Ascii.
+Fixpoint utf8_decode (l : list Z) : list Z :=
+  match l with
+  | [] => []
+  | b :: tl =>
+    if b <? 128 then b :: utf8_decode tl
+    else if b <? 224 then
+      match tl with c :: tl2 => ((b - 192) * 64 + (c - 128)) :: utf8_decode tl2 | _ => [] end
+    else if b <? 240 then
+      match tl with c :: d :: tl3 => ((b - 224) * 4096 + (c - 128) * 64 + (d - 128)) :: utf8_decode tl3 | _ => [] end
+    else
+      match tl with
+      | c :: d :: e :: tl4 => ((b - 240) * 262144 + (c - 128) * 4096 + (d - 128) * 64 + (e - 128)) :: utf8_decode tl4
+      | _ => []
+      end
+  end.
+Definition u (s : string) : text := utf8_decode (map (fun a => Z.of_N (N_of_ascii a)) (list_ascii_of_string s)).
+
 Definition outcome_eqb (a b : outcome) : bool :=
   match a, b with
   | ROk x, ROk y => text_eqb x y
